@@ -206,3 +206,48 @@ Proof.
   - apply monomial_is_pow.
   - destruct k as [|k]; [reflexivity|]. rewrite chebyshev_split_S. apply chebyshev_closed_form. lia.
 Qed.
+
+(* ------------------------------------------------------------------ all orders: characterisation and degree *)
+(* Bonnet's recursion with P_0 = 1, P_1 = x (the textbook definition by recursion, Abramowitz-Stegun 8.5.3) has exactly
+   one solution: the model's sequence.  Likewise T_0 = 1, T_1 = x, T_{n+2} = 2x T_{n+1} - T_n (A-S 22.7.4). *)
+Lemma legendre_characterised (P : nat -> Q -> Q) :
+  (forall x, P 0%nat x == 1) -> (forall x, P 1%nat x == x) ->
+  (forall n x, Qn (n + 2) * P (S (S n)) x == Qn (2 * n + 3) * x * P (S n) x - Qn (n + 1) * P n x) ->
+  forall n x, P n x == legendre_rec n x.
+Proof.
+  intros H0 H1 HB n x. induction n as [| |n IH1 IH2] using pair_induction.
+  - apply H0.
+  - apply H1.
+  - apply (Qmult_inj_l _ _ (Qn (n + 2))); [apply Qn_plus2_nz|].
+    rewrite HB, legendre_bonnet, IH1, IH2. reflexivity.
+Qed.
+Lemma chebyshev_characterised (T : nat -> Q -> Q) :
+  (forall x, T 0%nat x == 1) -> (forall x, T 1%nat x == x) ->
+  (forall n x, T (S (S n)) x == 2 * x * T (S n) x - T n x) ->
+  forall n x, T n x == chebyshev_rec n x.
+Proof.
+  intros H0 H1 HR n x. induction n as [| |n IH1 IH2] using pair_induction.
+  - apply H0.
+  - apply H1.
+  - rewrite HR, chebyshev_rec_SS, IH1, IH2. reflexivity.
+Qed.
+
+Lemma padd_length p : forall q, length (padd p q) = Nat.max (length p) (length q).
+Proof. induction p as [|a p IH]; intros [|b q]; simpl; auto. Qed.
+Lemma pscale_length c p : length (pscale c p) = length p.
+Proof. unfold pscale. apply map_length. Qed.
+Lemma legendre_poly_length n : length (legendre_poly n) = S n.
+Proof.
+  induction n as [| |n IH1 IH2] using pair_induction; [reflexivity | reflexivity |].
+  rewrite legendre_poly_SS, pscale_length, padd_length, !pscale_length. unfold pshift. cbn [length]. rewrite IH1, IH2. lia.
+Qed.
+Lemma chebyshev_poly_length n : length (chebyshev_poly n) = S n.
+Proof.
+  induction n as [| |n IH1 IH2] using pair_induction; [reflexivity | reflexivity |].
+  rewrite chebyshev_poly_SS, padd_length, !pscale_length. unfold pshift. cbn [length]. rewrite IH1, IH2. lia.
+Qed.
+(* every order: P_n and T_n are polynomials in x with n+1 coefficients (degree <= n) *)
+Lemma legendre_is_polynomial n : exists p, length p = S n /\ forall x, legendre_rec n x == peval p x.
+Proof. exists (legendre_poly n). split; [apply legendre_poly_length | intros x; apply legendre_poly_ok]. Qed.
+Lemma chebyshev_is_polynomial n : exists p, length p = S n /\ forall x, chebyshev_rec n x == peval p x.
+Proof. exists (chebyshev_poly n). split; [apply chebyshev_poly_length | intros x; apply chebyshev_poly_ok]. Qed.
